@@ -131,6 +131,19 @@ def run(F, rep, tier):
     # ---- UNARY
     fn_un, utab, uprec = pipe.parser_unary(F)
     lv = last(norm_path(peel(uprec).get("path", ""))) if uprec is not None else None
+    # ... on every path: no other sub-parse may produce the operand (`-2 -> sq()` must stay `-(2 -> sq())`)
+    others_u = []
+    for c_ in nodes(fn_body(fn_un), "Call"):
+        cal = callee(c_) or ""
+        if not cal.startswith(P) or "Result<(sylt_parser::Context" not in (c_.get("ty") or ""):
+            continue
+        if last(cal) == "parse_precedence" and len(c_["args"]) > 1 and last(norm_path(peel(c_["args"][1]).get("path", ""))) == lv:
+            continue
+        others_u.append(last(cal))
+    rep.ob("UNARY", "unary|operand-on-every-path", not others_u,
+           "unary() parses its operand with parse_precedence(.., Prec::%s) and nothing else" % lv if not others_u else
+           "unary() also parses an operand with %s: for those inputs the operand is not parsed at the unary level, so a postfix "
+           "(call, index, `->`) after it binds to the whole negation instead of to the operand" % sorted(set(others_u)), fn_un["sp"])
     rep.ob("UNARY", "unary|operand-level", lv == "Factor", "the operand of unary -/not is parsed at Prec::%s (documented: tighter than + -, "
            "looser than call/index/field => Factor)" % lv, fn_un["sp"])
     rep.ob("UNARY", "unary|operators", set(utab) == {"Minus", "Not"}, "unary operators are exactly - and not (%s)" % sorted(utab), fn_un["sp"])
